@@ -752,6 +752,21 @@ def did_services(u):
     ]
 
 
+def memory_echo(u):
+    """C03 / C14: write_memory_by_address with explicit formats: the request, and what is done with the server's echo"""
+    import symtrans as st
+    request, interpret = client_env(u)
+    from udsoncan import MemoryLocation
+    L = []
+    for af, sf, K in ((16, 8, 6), (64, 64, 19)):
+        call = (lambda af, sf: lambda c, a, s, data: c.write_memory_by_address(MemoryLocation(a, s, af, sf), data))(af, sf)
+        obs = lambda r: [r.service_data.alfid_echo, r.service_data.memory_location_echo.address, r.service_data.memory_location_echo.memorysize]
+        P = [('a', 'Z'), ('s', 'Z'), ('data', 'Y')]
+        L.append(dict(name='fn_write_memory_request_%d_%d' % (af, sf), params=P, result='Y', call=request(call)))
+        L.append(dict(name='fn_write_memory_interpret_%d_%d' % (af, sf), params=P + [('d', ('seqx', K, 1))], result='S', call=interpret(call, 0x7D, obs)))
+    return L
+
+
 def pick(names):
     return lambda u: [sp for sp in helpers(u) if sp['name'] in names]
 
@@ -775,6 +790,7 @@ def files(u):
              lambda u: [sp for sp in did_services(u) if 'request' in sp['name']]),
             ('Fn_DidInt.v', 'udsoncan/client.py (read_data_by_identifier), services/ReadDataByIdentifier.py (interpret_response), common/dids.py',
              lambda u: [sp for sp in did_services(u) if 'interpret' in sp['name']]),
+            ('Fn_MemoryEcho.v', 'udsoncan/client.py (write_memory_by_address), services/WriteMemoryByAddress.py, common/MemoryLocation.py', memory_echo),
             ('Fn_Unlock.v', 'udsoncan/client.py (unlock_security_access, request_seed, send_key; send_request replaced by two scripted replies)', unlock),
             ('Fn_SendRequest.v', 'udsoncan/client.py (send_request, on a symbolic clock)',
              lambda u: [sp for sp in send_request(u) if not any(k in sp['name'] for k in CTX_KINDS)]),
